@@ -16,7 +16,7 @@ open SmppVerif SmppVerif.Corr SmppVerif.Lemmas.Corr SmppVerif.Lemmas.Expiry Smpp
     log_id and extra_data, and the request is consumed (no second outcome, no time-out). -/
 theorem plain_response_outcome (s : CState) (now at_ : Nat) (resp o : Msg)
     (hst : aget s.store resp.seq = some (at_, o)) (hk : o.kind = .submitSm)
-    (hplain : aget s.segStore resp.seq = none)
+    (hplain : aget s.segStore resp.seq = none) (hnosar : o.sarTotal = 0)
     (hr : resp.kind = .submitSmResp ∨ resp.kind = .genericNack) :
     (handleResponse s now resp).2.2.2 = .msg { resp with logId := o.logId, extra := o.extra } ∧
     aget (Corr.get s now resp).1.store resp.seq = none := by
@@ -51,6 +51,7 @@ theorem plain_response_outcome (s : CState) (now at_ : Nat) (resp o : Msg)
       { resp with logId := o.logId, extra := o.extra }).segStore resp.seq = none := by
     rw [fixLast_segStore]; exact hseg1
   rw [getSegmented_none _ _ _ (hseg2 _ hfix)]
+  simp [hnosar]
 where
   Props_match_once (s : CState) (now : Nat) (resp : Msg) :
       aget (Corr.get s now resp).1.store resp.seq = none := by
@@ -108,6 +109,26 @@ theorem first_put_registers_all (s : CState) (now : Nat) (m : Msg) (hs : m.isSub
   rw [hnew]
   exact ⟨_, aget_aset_same _ _ _, rfl, rfl⟩
 
+/-- A segment whose message status is gone (the message was reported by a sweep that ran
+    inside this very operation, repair daeef4d) yields the placeholder, not a second outcome. -/
+theorem orphan_segment_placeholder (s : CState) (now : Nat) (resp o : Msg)
+    (hget : (Corr.get s now resp).2.2 = some o) (hmis : mismatch resp o = false)
+    (hatt : attributable resp o = true) (hsar : o.sarTotal > 0)
+    (hgone : (getSegmented
+        (if resp.kind = .submitSmResp ∧ resp.status = 0
+         then putDelivery (fixLast (Corr.get s now resp).1 resp { resp with logId := o.logId, extra := o.extra })
+                now resp.msgId o
+         else (fixLast (Corr.get s now resp).1 resp { resp with logId := o.logId, extra := o.extra }, [])).1
+        resp.seq false).2.1 = none) :
+    (handleResponse s now resp).2.2.2 = .placeholder := by
+  unfold handleResponse
+  rw [hget]
+  dsimp only
+  rw [hmis, hatt]
+  simp only [Bool.false_eq_true, if_false, if_true]
+  rw [hgone]
+  simp [hsar]
+
 /-! ### the two history classes on which the full statement is FALSE of the code
     (kernel-checked on the model; replayed on the real code by the check every run) -/
 
@@ -159,5 +180,6 @@ end SmppVerif.Props.C01
 #print axioms SmppVerif.Props.C01.sending_iff_some_segment_sending
 #print axioms SmppVerif.Props.C01.failure_dominates
 #print axioms SmppVerif.Props.C01.first_put_registers_all
+#print axioms SmppVerif.Props.C01.orphan_segment_placeholder
 #print axioms SmppVerif.Props.C01.ref_reuse_misattributes
 #print axioms SmppVerif.Props.C01.wrong_type_loses_outcome
